@@ -159,6 +159,7 @@ class Runner:
         self.p = pfrac(case.get("p"))          # constructor argument (exact value of the float)
         self.p_special = case.get("p_special")  # "nan" | "inf" | "-inf": monitor only
         self.esl = case.get("esl")
+        self.keys_form = case.get("keys_form", "list")
         self.keys = list(case.get("keys", []))
         self.peff: F | None = None             # probability in effect (known to the monitor)
         self.content: list[int] = []           # sids, as last observed
@@ -202,6 +203,18 @@ class Runner:
         return math.log(cap) + GAMMA
 
     # -- constructor ---------------------------------------------------------------------------
+    def _keys_arg(self):
+        """The documented parameter type is Iterable[str]: exercise several iterable forms,
+        including single-pass iterators."""
+        ks = list(self.keys)
+        f = self.keys_form
+        if f == "tuple": return tuple(ks)
+        if f == "set": return set(ks)
+        if f == "generator": return (k for k in ks)
+        if f == "iter": return iter(ks)
+        if f == "dict_keys": return {k: None for k in ks}.keys()
+        return ks
+
     def construct(self, cap: int):
         """Build the real object; returns (object | None, reply string)."""
         seq_mod, rrb_mod = mods()
@@ -219,11 +232,11 @@ class Runner:
             if self.kind == "seq":
                 b = seq_mod.SequentialBuffer(cap)
             elif self.kind == "dseq":
-                b = seq_mod.DictSequentialBuffer(list(self.keys), cap)
+                b = seq_mod.DictSequentialBuffer(self._keys_arg(), cap)
             elif self.kind == "rrb":
                 b = rrb_mod.RandomReplacementBuffer(cap, **kw)
             else:
-                b = rrb_mod.DictRandomReplacementBuffer(list(self.keys), cap, **kw)
+                b = rrb_mod.DictRandomReplacementBuffer(self._keys_arg(), cap, **kw)
             return b, f"ok q={b.max_queue_size}"
         except Exception as e:  # the reply names whatever was raised
             return None, "err " + type(e).__name__
@@ -768,6 +781,7 @@ def gen_case(rng, kind: str | None = None, max_ops: int = 14) -> dict:
     if kind in ("dseq", "drrb"):
         keys = list(rng.choice(KEYSETS))
         case["keys"] = keys
+        case["keys_form"] = rng.choice(["list", "tuple", "set", "generator", "iter", "dict_keys"])
     p = None
     if kind in ("rrb", "drrb"):
         if rng.random() < 0.15:
@@ -916,6 +930,7 @@ def gen_malformed(rng) -> dict:
     if kind in ("dseq", "drrb"):
         keys = list(rng.choice(KEYSETS))
         case["keys"] = keys
+        case["keys_form"] = rng.choice(["list", "tuple", "set", "generator", "iter", "dict_keys"])
     if kind in ("rrb", "drrb") and t < 0.45:
         c = rng.random()
         if c < 0.35:
